@@ -87,6 +87,29 @@ D['fanout'] = ('''
     def up_x(): s.x @= ~s.in_
 ''', [('s.o[0]', 's.x'), ('s.o[1]', 's.o[0]'), ('s.o[2]', 's.x')])
 
+D['slice_of_slice'] = ('''
+    s.in_ = InPort(8); s.o4 = OutPort(4); s.w = OutPort(8); s.x = Wire(16)
+    @update
+    def up_x():
+      s.x[0:8] @= s.in_
+      s.x[8:16] @= ~s.in_
+''', [('s.o4', 's.x[2:12][2:6]'), ('s.w', 's.x[2:10]')])
+D['nested_slice_driven'] = ('''
+    s.in_ = InPort(8); s.in2 = InPort(4); s.w = Wire(16); s.y = OutPort(4)
+''', [('s.w[2:12][2:6]', 's.in_[0:4]'), ('s.w[8:12]', 's.in2'), ('s.y', 's.w[6:10]')])
+D['nested_slice_driven_alone'] = ('''
+    s.in_ = InPort(8); s.w = Wire(16); s.y = OutPort(2)
+''', [('s.w[2:12][2:6]', 's.in_[0:4]'), ('s.y', 's.w[5:7]')])
+D['piecewise_then_whole'] = ('''
+    s.in_ = InPort(8); s.p = Wire(In2); s.q = Wire(In2); s.oa = OutPort(4); s.ob = OutPort(2); s.oq = OutPort(In2)
+    @update
+    def up_pa(): s.p.a @= s.in_[0:4]
+''', [('s.p.b', 's.in_[4:8]'), ('s.q', 's.p'), ('s.oa', 's.q.a'), ('s.ob', 's.q.b[1:3]'), ('s.oq', 's.q')])
+D['equal_constants'] = ('''
+    s.in_ = InPort(8); s.out = OutPort(8); s.k1 = OutPort(8); s.k2 = OutPort(8); s.c1 = Wire(8); s.c2 = Wire(8); s.l = Leaf()
+    @update
+    def up_o(): s.out @= s.in_ + s.c1 + s.l.out
+''', [('s.c1', '5'), ('s.c2', '5'), ('s.k1', 's.c1'), ('s.k2', 's.c2'), ('s.l.in_', '5')])
 
 # connect statements executed inside child components (so that the connection graph can be written down without pymtl3)
 EXTRA_EDGES = {'hier3': [('s.m.l.in_', 's.m.in_'), ('s.m.out', 's.m.l.out'), ('s.p.out', 's.p.in_')]}
@@ -105,6 +128,11 @@ WRITERS = {
   'const': ['CONST:42'],
   'hier3': ['s.in_', 's.m.l.out'],                                # top-level input; the leaf's block-written output
   'fanout': ['s.x'],
+  'nested_slice_driven': ['s.in2', 's.in_[0:4]', 's.w[6:10]'],     # s.w[6:10] overlaps the net-driven s.w[4:8] (written as s.w[2:12][2:6]) and s.w[8:12]
+  'nested_slice_driven_alone': ['s.in_[0:4]', 's.w[5:7]'],
+  'slice_of_slice': ['s.x[2:10]', 's.x[4:8]'],                   # s.x[2:12][2:6] IS s.x[4:8]; both overlap block-written slices
+  'piecewise_then_whole': ['s.in_[4:8]', 's.p', 's.q.a', 's.q.b[1:3]'],   # s.p: one field by a block, one by a net -> driven relative; s.q driven whole by s.p, so its parts drive
+  'equal_constants': ['CONST:5', 'CONST:5', 'CONST:5'],           # every literal is its own constant: three separate nets
 }
 
 
